@@ -30,7 +30,7 @@ PROPS = {
             'technique': 'Verus postcondition mods\' == mods_step(mods, ev) on the real process_keyevent + induction lemma over Seq<KeyEvent> + verified clients'},
     'C05': {'kani_scenarios': ['word'], 'lemmas': ['c05'], 'assume': BASE + [A_COUNT, A_KANI], 'kani': ['count_ones_is_bit_sum'], 'design': 'DESIGN.md section 3, C05',
             'technique': 'Verus postcondition r == frame_ref(word) on the real check_word/add_word + bit-vector lemmas (round trip, single-bit corruption); Kani discharges the count_ones assumption'},
-    'C06': {'kani_scenarios': ['bits'], 'lemmas': ['c06'], 'assume': BASE + [A_PRIV, A_COUNT, A_FROMBOOL, A_KANI], 'kani': ['count_ones_is_bit_sum', 'int_from_bool_is_cast'], 'design': 'DESIGN.md section 3, C06',
+    'C06': {'support_fns': r'^Ps2Decoder::(check_word|get_bit|has_even_number_bits)$', 'kani_scenarios': ['bits'], 'lemmas': ['c06'], 'assume': BASE + [A_PRIV, A_COUNT, A_FROMBOOL, A_KANI], 'kani': ['count_ones_is_bit_sum', 'int_from_bool_is_cast'], 'design': 'DESIGN.md section 3, C06',
             'technique': 'Verus invariant wf + step postcondition ps2_step on the real add_bit/clear/new + induction over frames and streams of frames + verified clients'},
     'C07': {'lemmas': ['c07'], 'assume': BASE + [A_PRIV], 'kani': [], 'design': 'DESIGN.md section 3, C07',
             'technique': 'Verus automaton postconditions on both real advance_state functions + rank/resync lemmas over Seq<u8> by induction'},
